@@ -445,7 +445,7 @@ class QueryGen:
         rng = self.rng
         targets = [ir.Target(ir.col('k', T_INT))] if with_k else []
         used = {'k'} if with_k else set()
-        for i in range(rng.randint(1, 4)):
+        for i in range(rng.randint(1, 4) if rng.random() > 0.05 else rng.randint(9, 16)):
             t = rng.choice(ANY_TYPES)
             e = self.g.expr(t, rng.randint(1, 3))
             alias = f'c{i}' if rng.random() < 0.5 else None
@@ -458,7 +458,8 @@ class QueryGen:
         """Aggregate SELECT: keys by expression / name / position, visible or hidden,
         explicit or implicit; 1-3 aggregate targets; optional HAVING."""
         rng = self.rng
-        nkeys = rng.choice([0, 1, 1, 1, 2, 2, 3])
+        wide = rng.random() < 0.06          # now and then a statement with 9-16 targets
+        nkeys = rng.choice([0, 1, 1, 1, 2, 2, 3]) if not wide else rng.choice([2, 3, 4])
         keys = [self.key_expr() for _ in range(nkeys)]
         # drop structurally equal duplicates
         uniq = []
@@ -474,7 +475,7 @@ class QueryGen:
             if vis:
                 alias = f'g{i}' if rng.random() < 0.5 else None
                 targets.append(ir.Target(k, alias))
-        aggs = [self.agg_expr() for _ in range(rng.randint(1, 3))]
+        aggs = [self.agg_expr() for _ in range(rng.randint(1, 3) if not wide else rng.randint(7, 12))]
         for i, a in enumerate(aggs):
             targets.append(ir.Target(a, f'a{i}' if rng.random() < 0.6 else None))
         having = None
